@@ -173,6 +173,30 @@ def normalizer_checks(ck, rng):
                     lhs, rhs = float((fwd * W).sum()), float((DX * bwd).sum())
                     if abs(lhs - rhs) > 1e-11 * (abs(lhs) + abs(rhs) + 1):
                         ck.violation("normalizer-list:%s:forward-reverse-not-transposes" % mode, {"lhs": lhs, "rhs": rhs})
+                # grid points whose raw density lies under the normalisers' cutoff (far tail, an exact zero, an empty spin
+                # channel): the value routine clamps the density there and stays LINEAR in the non-local columns, so their
+                # reverse-mode derivative must still be the derivative of the value, and forward / reverse stay transposes
+                # for perturbations of the non-local columns
+                Xl = X.copy()
+                Xl[0, 0, 1], Xl[-1, 0, 3], Xl[-1, 0, 4] = 3e-11, 0.0, 1e-13
+                gl = nl.get_derivative_wrt_unnormed_features(Xl.copy(), V.copy())
+                ck.count(key=("norm-subcutoff", mode, nspin, trial))
+                for i in range(nsl, nf):
+                    d = np.zeros_like(Xl)
+                    d[:, i] = 1e-3
+                    fd = ((nl.get_normalized_feature_vector(Xl + d) - nl.get_normalized_feature_vector(Xl - d)) * V).sum(axis=1) / 2e-3
+                    if not np.all(np.abs(fd - gl[:, i]) <= 1e-9 * (np.abs(fd).max() + 1e-300)):
+                        ck.violation("normalizer-list:%s:sub-cutoff-density:reverse-mode-vs-fd" % mode,
+                                     {"nspin": nspin, "column": i, "err": float(np.abs(fd - gl[:, i]).max()), "scale": float(np.abs(fd).max())})
+                        break
+                for s in range(nspin):
+                    DX = np.zeros((nf, m))
+                    DX[nsl:] = rng.normal(size=(nf - nsl, m))
+                    fwd = nl.get_derivative_of_normed_features(Xl[s].copy(), DX.copy())
+                    lhs, rhs = (V[s] * fwd).sum(axis=0), (gl[s] * DX).sum(axis=0)
+                    if not np.all(np.abs(lhs - rhs) <= 1e-10 * (np.abs(lhs).max() + 1e-300)):
+                        ck.violation("normalizer-list:%s:sub-cutoff-density:forward-reverse-not-transposes" % mode,
+                                     {"nspin": nspin, "err": float(np.abs(lhs - rhs).max())})
 
 
 def forward_mode_plans(ck, rng):
